@@ -209,3 +209,15 @@ Definition usize_as_isize (a : N) : Z :=
   if a <? 9223372036854775808 then Z.of_N a else (Z.of_N a - 18446744073709551616)%Z.
 Definition isize_as_usize (z : Z) : N :=
   if (z <? 0)%Z then Z.to_N (z + 18446744073709551616) else Z.to_N z.
+
+(* ---------------------------------------------------------------------------------------------
+   an iterator struct passed where an `IntoIterator` is expected (`DArray::from_bits(bv.iter())`): the list of the
+   items that repeated calls of its `next` yield, up to the first `None`
+   --------------------------------------------------------------------------------------------- *)
+Definition iter_collect {S A} (next : S -> res (S * option A)) (it : S) : res (list A) :=
+  loopN W (fun '(it, acc) =>
+      r <- next it ;;
+      match snd r with
+      | None => Ok (inr acc)
+      | Some a => Ok (inl (fst r, acc ++ [a]))
+      end) (it, []).
